@@ -545,6 +545,14 @@ type Lemma struct {
 	Trusted  bool
 }
 
+type FieldPartition struct {
+	Type      string
+	Compared  string
+	Refreshed []string
+	Keyed     []string
+	Props     []string
+}
+
 type ImmutableDecl struct {
 	Name  string
 	Props []string
@@ -564,10 +572,11 @@ type ContractSet struct {
 	Order     []string
 	Guarded   map[string]string // Type.field -> mutex field
 	Immutable []ImmutableDecl
+	Partitions []FieldPartition
 }
 
 var clauseKW = map[string]bool{"func": true, "assume": true, "pure": true, "pred": true, "axiom": true, "lemma": true, "requires": true,
-	"ensures": true, "loop": true, "property": true, "modifies": true, "ghost": true, "option": true, "at": true, "proof": true, "trusted": true, "induction": true, "guarded": true, "end": true, "assert": true, "use": true, "opaque": true, "macro": true, "immutable": true}
+	"ensures": true, "loop": true, "property": true, "modifies": true, "ghost": true, "option": true, "at": true, "proof": true, "trusted": true, "induction": true, "guarded": true, "end": true, "assert": true, "use": true, "opaque": true, "macro": true, "immutable": true, "fieldpartition": true}
 
 var labelRe = regexp.MustCompile(`^([A-Za-z_][A-Za-z0-9_\-]*):\s+(.*)$`)
 
@@ -972,6 +981,31 @@ func (cs *ContractSet) parseFile(fname, data string) error {
 			}
 			cs.Immutable = append(cs.Immutable, d)
 			cs.Order = append(cs.Order, "immutable:"+d.Name)
+			cur, curLemma = nil, nil
+		case "fieldpartition":
+			// fieldpartition T compared F refreshed G H keyed A B property Cxx
+			fs := strings.Fields(rest)
+			fp := FieldPartition{Type: fs[0]}
+			mode := ""
+			for _, f := range fs[1:] {
+				switch f {
+				case "compared", "refreshed", "keyed", "property":
+					mode = f
+					continue
+				}
+				switch mode {
+				case "compared":
+					fp.Compared = f
+				case "refreshed":
+					fp.Refreshed = append(fp.Refreshed, f)
+				case "keyed":
+					fp.Keyed = append(fp.Keyed, f)
+				case "property":
+					fp.Props = append(fp.Props, f)
+				}
+			}
+			cs.Partitions = append(cs.Partitions, fp)
+			cs.Order = append(cs.Order, "fieldpartition:"+fp.Type)
 			cur, curLemma = nil, nil
 		case "guarded":
 			// guarded Type.field by mu
